@@ -84,3 +84,18 @@ Proof.
   destruct (String.eqb (nospace l) last) eqn:E; [|reflexivity].
   apply String.eqb_eq in E. subst last. rewrite H. reflexivity.
 Qed.
+
+(* first filtering of lines that carry no first-filter tag: only the blank-run collapse acts *)
+Lemma load_file_collapse : forall dict ls,
+  dict_ok dict = true -> forallb load_inert ls = true -> load_file dict ls = Some (filter_multiple_newlines ls).
+Proof.
+  intros dict ls Hd Hl. unfold load_file.
+  assert (E : existsb (fun l => hasSpecificTag l TAG_EXTENDS || hasSpecificTag l TAG_EXCLUDE) ls = false).
+  { induction ls as [|l ls IH]; [reflexivity|]. cbn [forallb] in Hl. apply andb_prop in Hl as [H1 H2].
+    cbn [existsb]. rewrite (IH H2), orb_false_r. unfold load_inert in H1.
+    repeat (apply andb_prop in H1 as [H1 ?K]). apply negb_true_iff in H1, K1. rewrite H1, K1. reflexivity. }
+  rewrite E. f_equal. f_equal.
+  induction ls as [|l ls IH]; [reflexivity|]. cbn [forallb] in Hl. apply andb_prop in Hl as [H1 H2].
+  cbn [flat_map]. rewrite (process_line_id dict l Hd H1), IH; [reflexivity|assumption|].
+  cbn [existsb] in E. apply orb_false_elim in E as [_ E]. exact E.
+Qed.
